@@ -3,6 +3,11 @@ import Ibx.Bytes
   Model of net/textproto.Reader.ReadLine as the SMTP session uses it (bufio.Reader.ReadLine underneath):
   a line ends at LF; the LF and one CR directly before it are dropped; a non-empty partial last line is
   returned as it is (nothing dropped) before EOF; no length limit.
+  Caveat found by the C02 differential check (thorough tier): an UNTERMINATED last line is dropped by the real
+  ReadLine (it returns io.EOF instead of the line) when its bytes fill bufio's 4096-byte buffer exactly at the
+  moment EOF arrives (e.g. 4096·k bytes from a bytes.Reader).  That depends on how the reads were chunked, not on
+  the bytes, so it is not modelled; the model is exact for LF-terminated lines of any length and for unterminated
+  last lines shorter than 4096 bytes.
 -/
 namespace Ibx.Model.Line
 open Ibx
